@@ -157,16 +157,16 @@ Proof. exact inv_init. Qed.
 Lemma clean_reset : clean dreset.
 Proof. split; reflexivity. Qed.
 
-Lemma join_aux_exact frags : forall size n acc,
-  n = nlen acc -> size = n + nlen (concat frags) -> join_aux frags size n acc = Some (acc ++ concat frags).
+Lemma join_aux_exact frags : forall size n,
+  size = n + nlen (concat frags) -> join_aux frags size n = Some (concat frags).
 Proof.
-  induction frags as [|p t IH]; intros size n acc Hn Hs; cbn [join_aux concat] in *.
-  - cbn [nlen] in Hs. replace (size - n) with 0 by lia. cbn [nrep]. reflexivity.
+  induction frags as [|p t IH]; intros size n Hs; cbn [join_aux concat] in *.
+  - cbn [nlen] in Hs. replace (size - n) with 0 by lia. reflexivity.
   - rewrite nlen_app in Hs. destruct (N.ltb_spec size n); [lia|].
-    rewrite ntake_all by lia. rewrite IH; [now rewrite <- app_assoc| rewrite nlen_app; lia | lia].
+    rewrite ntake_all by lia. rewrite IH by lia. reflexivity.
 Qed.
 Lemma join_exact frags : join frags (nlen (concat frags)) = Some (concat frags).
-Proof. unfold join. now rewrite join_aux_exact with (acc := []). Qed.
+Proof. unfold join. now apply join_aux_exact. Qed.
 Lemma concat_snoc {A} (l : list (list A)) x : concat (l ++ [x]) = concat l ++ x.
 Proof. rewrite concat_app. cbn. now rewrite app_nil_r. Qed.
 
